@@ -93,7 +93,21 @@ def setup(M):
         M.check("new.invariant", not bad, "C09/" + "+".join(bad), "Duration normalisation inconsistent", args=v, got=got,
                 expected=breakdown(rest), native_us=td_us(ret), want_us=td_us(nat))
 
-    M.contract(Duration, "__new__", post=new_post, label="Duration.__new__")
+    def new_exc(e, a, k, snap):
+        if a[0] is not Duration:
+            return
+        v = _args(a, k)
+        if not all(type(x) is int for x in v.values()):
+            return
+        try:
+            dt.timedelta(days=v["days"] + 365 * v["years"] + 30 * v["months"], seconds=v["seconds"], microseconds=v["microseconds"],
+                         milliseconds=v["milliseconds"], minutes=v["minutes"], hours=v["hours"], weeks=v["weeks"])
+        except OverflowError:
+            return          # the value itself is outside timedelta's range: raising is right
+        M.check("new.native", False, f"C09/raised-{type(e).__name__}:total-representable",
+                "Duration() raised although the native timedelta of the same arguments exists", args=v, exc=repr(e)[:100])
+
+    M.contract(Duration, "__new__", post=new_post, exc=new_exc, label="Duration.__new__")
 
     def abs_post(ret, a, k, snap):
         v = _args(a, k)
@@ -141,6 +155,14 @@ def cases(M):
             v["microseconds"] = s * r.choice((999999, 10**6, 10**6 + 1, 59999999, 6 * 10**7, 86399999999, 864 * 10**8))
             v["seconds"] = r.choice((0, s * 59, -s * 60, s * 86399))
             v["days"] = r.choice((0, s * 6, -s * 7, s * 7))
+        elif mode == 6 and j % 16 == 6:
+            # a day part beyond timedelta's own limit, pulled back into range by years/months of the opposite sign
+            v = {n: 0 for n in KW}
+            sgn = r.choice((1, -1))
+            v["years"] = -sgn * r.randrange(1, 10**6)
+            v["days"] = sgn * (999999999 + r.randrange(1, 300 * abs(v["years"])))
+            v["hours"] = r.choice((0, sgn * 5))
+            v["seconds"] = r.choice((0, sgn * 7))
         elif mode == 5 and j % 16 == 5:
             # years/months cancelled to within a day by days/weeks of the opposite sign: the whole value as a timedelta is
             # tiny (native days 0 or -1) while the part excluding years and months is not
